@@ -1,14 +1,33 @@
-(* SourceFacts.v - the hand-written model's numeric formulas ARE the formulas of /repo's source text as translated on
-   this run (gen/GenFns.v, by bin/rs2coq.py): each generated definition is proved equal to the model's, for every
-   numeric instance and every argument.  A change of a formula in the source changes the generated definition and
-   breaks the corresponding theorem here. *)
-From Coq Require Import ZArith NArith List Bool String.
-From PV Require Import Num model.Geom model.Optimiser model.Svg gen.GenFns.
+(* SrcOpt.v - src/optimisation.rs and src/basis.rs as translated from the source on this run (gen/GenFns.v) are the
+   hand-written optimiser model. *)
+From Coq Require Import ZArith NArith String List Bool Lia.
+From PV Require Import Num model.Geom model.Optimiser model.Svg model.Pipeline model.Iter gen.GenFns proofs.ListLemmas.
 Import ListNotations.
 Local Open Scope num_scope.
 
-Theorem source_translated : gen_fns_problem = ""%string.
-Proof. reflexivity. Qed.
+(* every function of the source this file is about was translated on this run *)
+Theorem optimiser_source_translated :
+  translated_gen_energy_surface = true /\
+  translated_gen_test_acceptance = true /\
+  translated_gen_accept_score = true /\
+  translated_gen_cooling_factor = true /\
+  translated_gen_build = true /\
+  translated_gen_inner_steps = true /\
+  translated_gen_loops = true /\
+  translated_gen_converged = true /\
+  translated_gen_ratio_update = true /\
+  translated_gen_init = true /\
+  translated_gen_init_count = true /\
+  translated_gen_loop_head = true /\
+  translated_gen_inner_count = true /\
+  translated_gen_final_ok = true /\
+  translated_gen_mc_step = true /\
+  translated_gen_end_loop = true /\
+  translated_gen_clamp = true /\
+  translated_gen_sample = true /\
+  translated_gen_reset_value = true /\
+  translated_gen_set_sampled = true.
+Proof. repeat split; reflexivity. Qed.
 
 Section Source.
   Variable NN : Num.
@@ -177,107 +196,4 @@ Section Source.
     gen_sample NN (h_min NN h) (h_max NN h) v step g = sample NN h v step g.
   Proof. reflexivity. Qed.
 
-  (* ---- src/shape/components *)
-  Theorem lj_energy_is_source : forall a b, gen_lj_energy NN powi a b = lj_energy NN powi a b.
-  Proof. reflexivity. Qed.
-
-  Theorem disc_intersects_is_source : forall a b, gen_disc_intersects NN a b = disc_intersects NN a b.
-  Proof. reflexivity. Qed.
-
-  Theorem seg_intersects_is_source : forall s o, gen_seg_intersects NN s o = seg_intersects NN s o.
-  Proof.
-    intros s o. unfold gen_seg_intersects, seg_intersects.
-    destruct (_ =? n0); [reflexivity|]. cbv zeta.
-    match goal with |- (if ?c then true else false) = ?d => replace d with c; [destruct c; reflexivity|] end.
-    rewrite <- !andb_assoc. reflexivity.
-  Qed.
-
-  (* ---- src/cell.rs *)
-  Theorem cell_sides_are_source : forall c, gen_cell_a NN c = cell_a NN c /\ gen_cell_b NN c = cell_b NN c.
-  Proof. intros c. split; reflexivity. Qed.
-
-  Theorem cell_area_is_source : forall c, gen_cell_area NN c = cell_area NN c.
-  Proof. reflexivity. Qed.
-
-  Theorem to_cartesian_is_source : forall c x y, gen_to_cartesian NN c x y = to_cartesian NN c (x, y).
-  Proof. reflexivity. Qed.
-
-  (* ---- src/transform.rs (with the arguments of the call in src/site.rs) *)
-  Theorem wrap_is_source : forall x, gen_wrap NN x = wrap1 NN x.
-  Proof. reflexivity. Qed.
-
-  (* ---- src/shape/line_shape.rs: the area is the sum, in order, of one term per edge *)
-  Theorem poly_area_is_source : forall angle_term l,
-    poly_area NN angle_term l = fold_left (fun acc p => acc + gen_poly_term NN angle_term p) l n0.
-  Proof. reflexivity. Qed.
-
-  Theorem angle_term_is_source : forall fsin pi_ l,
-    gen_angle_term NN fsin pi_ l = fsin ((n2 * pi_) / nofZ (Z.of_nat (List.length l))).
-  Proof. reflexivity. Qed.
-
-  (* the enclosing radius: the largest term, folded from f64::MIN with f64::max *)
-  Theorem poly_radius_is_source : forall fmin_ l,
-    poly_radius NN fmin_ l = fold_left (fun acc p => nmax acc (gen_poly_radius_term NN p)) l fmin_.
-  Proof. reflexivity. Qed.
-
-  Theorem mol_radius_is_source : forall fmin_ l,
-    mol_radius NN fmin_ l = fold_left (fun acc p => nmax acc (gen_mol_radius_term NN p)) l fmin_.
-  Proof. reflexivity. Qed.
-
-  (* ---- src/shape/line_shape.rs: from_radial's angular step and the edge it pushes for (index, (r1, r2)) *)
-  Theorem radial_edge_is_source : forall fsin fcos dtheta index r1 r2,
-    gen_radial_edge NN fsin fcos dtheta index r1 r2 = radial_edge NN fsin fcos dtheta index r1 r2.
-  Proof. reflexivity. Qed.
-
-  Theorem from_radial_is_source : forall fsin fcos pi_ points,
-    from_radial NN pi_ fsin fcos points
-    = map (fun ir => gen_radial_edge NN fsin fcos (gen_radial_dtheta NN pi_ points) (fst ir) (fst (snd ir)) (snd (snd ir)))
-          (combine (seq 0 (List.length points)) (combine points (rotate1 points))).
-  Proof. reflexivity. Qed.
-
-  (* ---- src/shape/molecular_shape2.rs *)
-  Theorem mol_trimer_is_source : forall fsin fcos pi_ radius angle distance,
-    gen_mol_trimer NN fsin fcos pi_ radius angle distance = mol_trimer NN pi_ fsin fcos radius angle distance.
-  Proof. reflexivity. Qed.
-
-  (* ---- src/shape/lj_shape.rs: LJShape2::from_trimer (three particles, sigma = 2 r, epsilon from Default, cutoff 3.5) *)
-  Theorem lj_trimer_is_source : forall fsin fcos pi_ radius angle distance,
-    gen_lj_trimer NN fsin fcos pi_ radius angle distance = lj_trimer NN pi_ fsin fcos (nofZ 7 / nofZ 2) radius angle distance.
-  Proof. reflexivity. Qed.
-
-  Theorem overlap_area_is_source : forall r d, gen_overlap_area NN facos r d = overlap_area NN facos r d.
-  Proof. reflexivity. Qed.
-
-  Theorem circle_overlap_is_source : forall a b, gen_circle_overlap NN facos a b = circle_overlap NN facos a b.
-  Proof. reflexivity. Qed.
-
-  (* ---- src/state/packed.rs, src/state/potential.rs *)
-  Theorem density_precheck_is_source : forall st, gen_density_precheck NN st = density_precheck NN st.
-  Proof. reflexivity. Qed.
-
-  Theorem shells_is_source : forall st, gen_shells NN st = shells_of NN st.
-  Proof. reflexivity. Qed.
-
-  Theorem radius_sq_is_source : forall st, gen_radius_sq NN st = sq NN (p_radius NN st * n2).
-  Proof. reflexivity. Qed.
-
-  Theorem packed_score_is_source : forall st, gen_packed_score NN st = packed_score NN st.
-  Proof. reflexivity. Qed.
-
-  Theorem lj_final_is_source : forall st,
-    gen_lj_final NN st (lj_sum NN powi st) = lj_score NN powi st.
-  Proof. reflexivity. Qed.
 End Source.
-
-(* ---- src/to_svg.rs: the matrix(a b c d e f) of a placement lists the entries in the model's order *)
-Definition tf_entry (NN : Num) (t : tf NN) (rc : nat * nat) : carrier NN :=
-  match rc with
-  | (0, 0) => a00 NN t | (0, 1) => a01 NN t | (0, 2) => a02 NN t
-  | (1, 0) => a10 NN t | (1, 1) => a11 NN t | (1, 2) => a12 NN t
-  | (2, 0) => a20 NN t | (2, 1) => a21 NN t | _ => a22 NN t
-  end%nat.
-
-Theorem svg_entries_are_source : forall NN (t : tf NN),
-  emit NN t = map (tf_entry NN t) gen_svg_entries
-  /\ gen_svg_format = "matrix({0} {1} {2} {3} {4} {5})"%string.
-Proof. intros NN t. split; reflexivity. Qed.
